@@ -192,7 +192,10 @@ def cmd_check(prop, tier, jobs):
                 n_dis += 1
             elif verdict == "refuted":
                 if name in known:
+                    # a recorded finding is reported on its own (KNOWN-FINDING line, coverage.known_findings_matched): it is neither a discharged obligation nor
+                    # one this run claims to have decided anew, so it is not counted under obligations/discharged
                     known_hit.append((name, known[name]))
+                    n_obl -= 1
                 else:
                     violations.append((h, name, rec, r))
             else:
